@@ -366,6 +366,7 @@ func main() {
 	chk.Assume("reference encoder verif/ref/aztec is trusted (written from ISO/IEC 24778; cross-checked against sample symbols and its own tests)")
 	chk.Assume("conforming symbol = at least 3 check codewords and a data codeword count the mode message can state (<=64 compact, <=2048 full); 'exactly full' = largest scripted text whose stuffed bits leave exactly that minimum")
 	chk.Assume("weaker reading (DESIGN 7): the positive obligation of the reader is a clean image at integer scales 2..5 with a quiet zone of 2 modules; with quiet zone 0 only a different text (never not-found) is a violation")
+	chk.Assume("canvas sub-space: 'located in a clean image' is required for symbols whose bull's-eye covers the image centre (centred or displaced by up to two modules) on canvases of any aspect ratio; a symbol far from the image centre is outside the obligation because the detector, by design, searches from the image centre")
 	chk.Assume("the property promises nothing beyond the correction capacity floor(check/2): t+1 damaged codewords are executed and their outcomes counted (observed-only/...), but no outcome is a violation")
 	chk.Assume("binary-shift bytes >= 0x80 are expected as ISO-8859-1 converted to UTF-8 and keyed separately (C11/binary-latin1); the U/S B/S construction is keyed separately (C11/us-bs); FLG(0) is expected as GS (0x1D) and never placed first; inputs that belong to C06 (HighLevelDecode of 0/1 bits, FLG(n) with unregistered ECI) are not generated")
 	drivers()
@@ -379,6 +380,7 @@ func main() {
 	runDamage()
 	runModeMessage()
 	runReader()
+	runCanvas()
 	chk.Finish()
 }
 
